@@ -358,6 +358,16 @@ def wide_family(seed, n, maxlen=5, budget=6000):
                   spells=("sep",), words=("1",))
         galpha_trim(d, budget)
         out.append(d)
+    # a value that does not convert, further right than an option declared AFTER the group and typed inside the block
+    for i in range(max(1, n // 3)):
+        wrap = ["many", "opt", "one"][i % 3]
+        g = adjf("g0", wrap, rf("h0", "one", "--rect"), ar("w", "one", "int", "--ww"), ar("sc", "opt", "int", "--scale"))
+        d = mkdef(f"widex{seed}_{i}", level([g, sw("o3", "-s")], postail(pos("p0", "opt")) if i % 2 else NOTAIL), maxlen=maxlen, extras=(),
+                  spells=("sep",), words=("1", "x"))
+        galpha_trim(d, budget)
+        if "x" not in d["alpha"]["words"]:
+            d["alpha"]["words"] = list(d["alpha"]["words"]) + ["x"]
+        out.append(d)
     return out
 
 
